@@ -413,7 +413,12 @@ def checkTick (c05 : Bool) (c06 : Bool) (c07 : Bool) (rss : List RsJ) (objs : Li
           v := v ++ [if fresh then "C06.percg_clean_after_absence" else "C06.percg_resumes_paused_action"]
         else
           match acts.head?, (if paused then none else A.susp) with
-          | some e0, some (_, c) => if ctxOf e0 != c then v := v ++ ["C06.percg_same_context"]
+          | some e0, some (_, c) =>
+            if ctxOf e0 != c then v := v ++ ["C06.percg_same_context"]
+            -- the target cgroup of the context is the instance's cgroup on the resumed run as on the firing one
+            match e0 with
+            | IEv.a _ _ _ rcg _ _ _ _ _ tg _ => if tg != rcg then v := v ++ ["C06.percg_same_context.target"]
+            | _ => pure ()
           | _, _ => pure ()
       if T?.isSome && got != expected then
         v := v ++ [if fresh then "C11.fresh_after_absence.state" else "C11.state_persists_while_present.state"]
@@ -461,6 +466,9 @@ def checkTick (c05 : Bool) (c06 : Bool) (c07 : Bool) (rss : List RsJ) (objs : Li
         | none, _ => v := v ++ ["C11.prerun_every_tick"]
         | some a, some b => if b < a then v := v ++ ["C11.prerun_every_tick"]
         | _, _ => pure ()
+        -- ... and once: an instance's windows advance by its own ticks, not by what happens to other cgroups
+        let nP := (all.filter fun e => (match e with | IEv.p .. => true | _ => false) && e.serial == o.serial).length
+        if nP > 1 then v := v ++ ["C11.prerun_every_tick.once"]
   return (v, S', cur)
 
 def collectObjs (compile : List IEv) (ticks : List ITick) : List ObjI := Id.run do
